@@ -121,7 +121,9 @@ def build(v):
     if t == 'value':
         return Value(build(v['v']))
     if t == 'combined':
-        return CombinedExpression(build(v['l']), v['op'], build(v['r']))
+        # Django's own connector for modulo is '%%' (Combinable.MOD)
+        op = '%%' if v['op'] == '%' else v['op']
+        return CombinedExpression(build(v['l']), op, build(v['r']))
     if t == 'orderby':
         return OrderBy(build(v['e']), descending=v['desc'])
     if t == 'lower':
